@@ -66,6 +66,8 @@ def run(ctx: core.Ctx):
             y, m, prm = smooth.make_case(rng, variant, n=n, min_ok=5)
             if fam:
                 y = family_series(rng, fam, n)
+            elif variant.endswith("r") and rng.random() < 0.5:
+                y = [v + rng.randint(-30, 30) - (rng.randint(500, 3000) if rng.random() < 0.12 else 0) for v in y]   # downward spikes
             nd = gen.placeholder(rng, [v for v, ok in zip(y, m) if ok])
             arr = smooth.encode(y, m, nd)
             band, lopt = smooth.call(variant, arr, nd, prm)
@@ -120,12 +122,17 @@ def run(ctx: core.Ctx):
                     ctx.fail(variant, inp, band.tolist(), arr.tolist(), note="constant / exactly linear series are returned (smoothed), not altered")
             # placeholder independence on the real code
             nd2 = float(valid_vals.max() + 1234) if nd < valid_vals.min() else float(valid_vals.min() - 1234)
-            if -32768 <= nd2 <= 32767:
-                arr2 = np.where(w > 0, arr, nd2)
-                b2, l2 = smooth.call(variant, arr2, nd2, prm)
+            for ph, ndarg in ((nd2, nd2), (float("nan"), float(valid_vals.max() + 7)), (float("inf"), float(valid_vals.max() + 7)), (float("-inf"), float(valid_vals.max() + 7))):
+                if ph == ph and abs(ph) != float("inf") and not -32768 <= ph <= 32767:
+                    continue
+                if not (w == 0).any():
+                    break
+                arr2 = np.where(w > 0, arr, ph)
+                b2, l2 = smooth.call(variant, arr2, ndarg, prm)
                 if not np.array_equal(b2, band) or l2 != lopt:
-                    ctx.fail(variant, dict(inp, nodata_b=nd2), dict(band=band.tolist(), lopt=lopt), dict(band=b2.tolist(), lopt=l2),
-                             note="robust result must not depend on the nodata placeholder")
+                    ctx.fail(variant, dict(inp, placeholder_b=ph), dict(band=band.tolist(), lopt=lopt), dict(band=b2.tolist(), lopt=l2),
+                             note="robust result must not depend on the nodata placeholder (finite, NaN or infinite)")
+                    break
 
     # accessor defaults (srange arange(-1.8,4.2,.2), robust=True)
     for k in range(ctx.budget(3, 20)):
